@@ -1289,3 +1289,259 @@ def replay_conc(prop, path, rp, work, seed):
 
 
 CHECKS["C11"] = c11
+
+
+# --------------------------------------------------------------------------- C12: no schedule hangs the registry
+
+VSYNC_NORM = {"dir": {"d": "dir", "dr": "dirRepo", "repo": "dirRepo", "dru.dr": "dirRepo", "dru": "dirRepoUpload"},
+              "mem": {"m": "mem", "mr": "memRepo", "repo": "memRepo", "mru.mr": "memRepo", "mru": "memRepoUpload"},
+              "cache": {"c": "Cache"}, "*": {"s": "Server"}}
+
+
+def rewrite_vsync(work):
+    """Copies of the non-test sources of olareg, internal/store and internal/cache (CURRENT tree) in which every mutex,
+    wait group and collection token operation goes through the functions of harness/inpkg/vsync (injected into each
+    package); returns the overlay file and the number of rewritten statements per kind."""
+    import re
+    d = work.sub("vsync-overlay")
+    ov = {"Replace": {}}
+    counts = {"Lock": 0, "Unlock": 0, "Wait": 0, "Add": 0, "Done": 0, "Take": 0, "Put": 0}
+    tmpl = open(os.path.join(vlib.HARNESS, "inpkg", "vsync", "vsync.go.tmpl")).read()
+    for pkgdir, pkgname in (("", "olareg"), ("internal/store", "store"), ("internal/cache", "cache")):
+        src = os.path.join(vlib.REPO, pkgdir)
+        for fn in sorted(os.listdir(src)):
+            if not fn.endswith(".go") or fn.endswith("_test.go") or fn.startswith("verif_"):
+                continue
+            code = open(os.path.join(src, fn)).read()
+            base = fn[:-3]
+            norm = dict(VSYNC_NORM["*"], **VSYNC_NORM.get(base, {}))
+
+            def cls(recv, field):
+                return '"%s.%s"' % (norm.get(recv, norm.get(recv.split(".")[-1], base + ":" + recv)), field)
+
+            def mutex(m):
+                counts[m.group(3)] += 1
+                return "v%s(&%s.%s, %s)" % (m.group(3), m.group(1), m.group(2), cls(m.group(1), m.group(2)))
+            code = re.sub(r"\b((?:\w+\.)*\w+)\.(mu|referrerMu)\.(Lock|Unlock)\(\)", mutex, code)
+
+            def wg(m):
+                op = m.group(2)
+                counts[op] += 1
+                if op == "Add":
+                    return "vAdd(&%s.wg, %s, %s)" % (m.group(1), m.group(3), cls(m.group(1), "wg"))
+                return "v%s(&%s.wg, %s)" % (op, m.group(1), cls(m.group(1), "wg"))
+            code = re.sub(r"\b((?:\w+\.)*\w+)\.wg\.(Wait|Add|Done)\((\d*)\)", wg, code)
+
+            def take_case(m):
+                counts["Take"] += 1
+                return "%scase <-%s.wgBlock:\n%s\tvTook(%s.wgBlock, %s)" % (m.group(1), m.group(2), m.group(1), m.group(2), cls(m.group(2), "wgBlock"))
+            code = re.sub(r"(?m)^([ \t]*)case <-((?:\w+\.)*\w+)\.wgBlock:", take_case, code)
+
+            def take(m):
+                counts["Take"] += 1
+                return "%svTake(%s.wgBlock, %s)" % (m.group(1), m.group(2), cls(m.group(2), "wgBlock"))
+            code = re.sub(r"(?m)^([ \t]*)<-((?:\w+\.)*\w+)\.wgBlock$", take, code)
+
+            def put(m):
+                counts["Put"] += 1
+                return "vPut(%s.wgBlock, %s)" % (m.group(1), cls(m.group(1), "wgBlock"))
+            code = re.sub(r"\b((?:\w+\.)*\w+)\.wgBlock <- struct\{\}\{\}", put, code)
+            if re.search(r"\.(mu|referrerMu)\.(Lock|Unlock|TryLock)\(|\.wg\.(Wait|Add|Done)\(|(?<!case )<-\s*\w+(\.\w+)*\.wgBlock|\.wgBlock\s*<-", code):
+                raise Inconclusive("%s/%s has synchronisation statements the rewriter does not know" % (pkgdir, fn))
+            if re.search(r"sync\.(RWMutex|Cond|Once|Map)|\.RLock\(|atomic\.", code):
+                raise Inconclusive("%s/%s uses synchronisation primitives the recorder does not cover" % (pkgdir, fn))
+            dst = os.path.join(d, pkgname + "_" + fn)
+            with open(dst, "w") as f:
+                f.write(code)
+            ov["Replace"][os.path.join(src, fn)] = dst
+        inj = os.path.join(d, pkgname + "_vsync_verif.go")
+        with open(inj, "w") as f:
+            f.write(tmpl.replace("package PKG", "package " + pkgname))
+        ov["Replace"][os.path.join(src, "vsync_verif.go")] = inj
+    ov["Replace"][os.path.join(vlib.REPO, "vsync_setter_verif.go")] = os.path.join(vlib.HARNESS, "inpkg", "vsync", "root_setter.go.tmpl")
+    if counts["Lock"] < 20 or counts["Take"] < 4 or counts["Wait"] < 4:
+        raise Inconclusive("the rewriter found too few synchronisation statements: %s" % counts)
+    ovf = os.path.join(d, "overlay.json")
+    with open(ovf, "w") as f:
+        json.dump(ov, f)
+    return ovf, counts
+
+
+def lock_programs(trace_file):
+    """Thread programs from a recorded synchronisation trace: per goroutine the completed operations, cut at the points
+    where it holds nothing; kept are the segments that block (Lock, Take, Wait) while holding something."""
+    from collections import defaultdict
+    per = defaultdict(list)
+    configs = []
+    with open(trace_file) as f:
+        for line in f:
+            e = json.loads(line)
+            if e["k"] == "config":
+                configs.append(e)
+            elif e["k"] == "sync" and e["post"]:
+                per[(e["epoch"], e["g"])].append(e)
+    ids = {}
+    progs, seen = [], set()
+    nseg = 0
+    for (epoch, g), evs in sorted(per.items()):
+        evs.sort(key=lambda e: e["seq"])
+        seg, held, nested = [], [], False
+        for e in evs:
+            key = (epoch, e["id"])
+            if key not in ids:
+                ids[key] = epoch * 10000 + len([k for k in ids if k[0] == epoch]) + 1
+            op = e["op"]
+            if op in ("Lock", "Take", "Wait") and held:
+                nested = True
+            seg.append({"op": op, "id": ids[key], "class": e["class"]})
+            if op in ("Lock", "Take", "Add"):
+                held.append((ids[key], op))
+            elif op in ("Unlock", "Put", "Done"):
+                want = {"Unlock": "Lock", "Put": "Take", "Done": "Add"}[op]
+                for i in range(len(held) - 1, -1, -1):
+                    if held[i] == (ids[key], want):
+                        del held[i]
+                        break
+            if not held:
+                nseg += 1
+                if nested:
+                    sig = json.dumps([epoch, seg])
+                    if sig not in seen:
+                        seen.add(sig)
+                        progs.append({"name": (evs[0].get("label") or "background").strip() or "background", "epoch": epoch, "g": g, "ops": seg})
+                seg, nested = [], False
+    return progs, configs, nseg
+
+
+def c12(prop, tier, seed, work):
+    import re
+    t0 = time.time()
+    quick = tier == "quick"
+    ovf, counts = rewrite_vsync(work)
+    vh = vlib.build_harness(work, tags="verif vsync", overlay=ovf)
+    env = dict(os.environ, TMPDIR=work.sub("roots"))
+    # (1) record the synchronisation operations of the workload, request by request
+    tf = work.path("locks.ndjson")
+    rc, out, dt = vlib.run([vh, "locks", "-mode", "record", "-o", tf, "-seed", str(seed)], timeout=1200, check=False, env=env)
+    m = re.search(r"(\d+) configurations, (\d+) requests, (\d+) hung", out)
+    if rc != 0 or not m:
+        raise Inconclusive("lock recorder failed:\n" + out[-3000:])
+    violations = []
+    if int(m.group(3)) > 0:
+        path = vlib.save_replay(prop, "record-hang", {"property": prop, "kind": "locks", "mode": "record", "seed": seed, "note": "a request of the sequential workload did not return"})
+        violations.append((path, "a request of the sequential workload did not return"))
+    progs, configs, nseg = lock_programs(tf)
+    nevents = sum(1 for _ in open(tf))
+    if len(progs) < 20:
+        raise Inconclusive("only %d nested thread programs were extracted" % len(progs))
+    pf = work.path("progs.ndjson")
+    vlib.write_programs(pf, progs)
+    # (2) TLC: every pair (thorough: and every triple of the shorter programs) in every interleaving
+    cfg = "SPECIFICATION Spec\nCONSTANT Threads = %d\nINVARIANT Report\nCHECK_DEADLOCK FALSE\n"
+    res = vlib.tlc(work, "locks2", "Locks", cfg % 2, files={pf: "progs.ndjson"}, workers=vlib.WORKERS, timeout=3000)
+    vlib.tlc_ok(res, "Locks pairs")
+    preds = vlib.tlc_prints(res["out"], "DEADLOCK")
+    states, trans = res["distinct"], res["states"]
+    notes = ["pairs of %d programs: %d distinct states, %d transitions, %.0fs, %d blocked states" % (len(progs), res["distinct"], res["states"], res["wall"], len(preds))]
+    if not quick:
+        short = [p for p in progs if len(p["ops"]) <= 12][:70]
+        pf3 = work.path("progs3.ndjson")
+        vlib.write_programs(pf3, short)
+        r3 = vlib.tlc(work, "locks3", "Locks", cfg % 3, files={pf3: "progs.ndjson"}, workers=vlib.WORKERS, timeout=5000)
+        vlib.tlc_ok(r3, "Locks triples")
+        p3 = vlib.tlc_prints(r3["out"], "DEADLOCK")
+        # a triple that contains a blocked pair is not news
+        preds += [p for p in p3 if all(t["live"] for t in p["threads"])]
+        states += r3["distinct"]
+        trans += r3["states"]
+        notes.append("triples of the %d programs of at most 12 operations: %d distinct states, %d transitions, %.0fs, %d blocked states" % (len(short), r3["distinct"], r3["states"], r3["wall"], len(p3)))
+    # the predicted cycles by class: (held class > wanted class) per blocked thread
+    idclass = {}
+    for p in progs:
+        for o in p["ops"]:
+            idclass[o["id"]] = o["class"]
+    cycles = {}
+    for p in preds:
+        edges = set()
+        for t in p["threads"]:
+            if t["live"]:
+                for h in t["holds"]:
+                    edges.add("%s>%s" % (idclass.get(h, "?"), t["wants"]["class"]))
+                if not t["holds"]:
+                    edges.add(">%s" % t["wants"]["class"])
+        key = ",".join(sorted(edges))
+        cycles.setdefault(key, []).append([t["name"][:80] for t in p["threads"]])
+    for key, ex in cycles.items():
+        log("predicted by TLC (%d states): %s   e.g. %s" % (len(ex), key, ex[0]))
+    # (3) the real code under concurrency: plain, and with delays at the edges of every predicted cycle
+    known = [k for k in vlib.load_known().get("open", []) if k.get("property") == prop]
+    klines = set()
+    runs = [("plain", "")] + [("cycle%d" % i, key) for i, key in enumerate(sorted(cycles)) if not key.startswith(">")]
+    nreq = nstress = 0
+    confirmed = []
+    for name, edges in runs:
+        sf = work.path("stress-%s.ndjson" % name)
+        cmd = [vh, "locks", "-mode", "stress", "-o", sf, "-seed", str(seed), "-secs", str(2 if quick else 8)]
+        if edges:
+            cmd += ["-edges", edges]
+        rc, out, dt = vlib.run(cmd, timeout=3000, check=False, env=env)
+        m = re.search(r"(\d+) configurations, (\d+) requests, (\d+) hung, (\d+) delays", out)
+        if not m:
+            raise Inconclusive("stress run failed:\n" + out[-3000:])
+        nreq += int(m.group(2))
+        nstress += 1
+        log("stress %s: %s requests, %s hung, %s delays (%.1fs)" % (name, m.group(2), m.group(3), m.group(4), dt))
+        if int(m.group(3)) > 0:
+            res_lines = [json.loads(l) for l in open(sf)]
+            bad = [r for r in res_lines if r["hung"] > 0][0]
+            waits = sorted({"%s>%s" % (h["class"], s["wants"]["class"]) for s in bad["stuck"] for h in (s["holds"] or [])})
+            kf = [k for k in known if set(k["match"]["edges"]) <= set(waits)]
+            if kf:
+                klines.add("KNOWN-FINDING: property=%s %s" % (prop, kf[0]["what"]))
+                continue
+            path = vlib.save_replay(prop, "hang-" + name, {"property": prop, "kind": "locks", "mode": "stress", "edges": edges, "seed": seed, "cfg": bad["cfg"],
+                                                          "waits": waits, "stuck": bad["stuck"], "closeHung": bad["closeHung"], "dump": bad.get("dump", "")[:60000]})
+            violations.append((path, "requests hang on %s store (upload limit %s, grace %s ms): wait-for edges %s" % (bad["cfg"]["store"], bad["cfg"]["uploadMax"], bad["cfg"].get("graceMs", 0), waits)))
+            confirmed.append(edges)
+    unconfirmed = [key for key in cycles if key not in confirmed and not key.startswith(">")]
+    # (4) a request waiting for a collection returns when its context is cancelled
+    cf = work.path("cancel.ndjson")
+    rc, out, dt = vlib.run([vh, "locks", "-mode", "cancel", "-o", cf], timeout=600, check=False, env=env)
+    cres = [json.loads(l) for l in open(cf)] if os.path.exists(cf) else []
+    if len(cres) < 2:
+        raise Inconclusive("cancel scenario failed:\n" + out[-2000:])
+    for r in cres:
+        if not r["waited"]:
+            raise Inconclusive("cancel scenario on %s: the request did not wait for the collection (the scenario no longer builds the situation)" % r["store"])
+        if not r["ok"]:
+            path = vlib.save_replay(prop, "cancel-" + r["store"], {"property": prop, "kind": "locks", "mode": "cancel", "result": r})
+            violations.append((path, "cancel scenario on %s: %s" % (r["store"], r["note"])))
+    for ln in sorted(klines):
+        print(ln)
+    if unconfirmed:
+        log("predicted but not produced on the real code (no verdict from these): %s" % unconfirmed)
+    cov = {"states": states, "transitions": trans, "traces_validated_against_impl": len(progs), "sync_events_recorded": nevents, "goroutine_segments": nseg,
+           "thread_programs": len(progs), "predicted_blocked_states": len(preds), "predicted_cycles": sorted(cycles), "confirmed_on_real_code": confirmed,
+           "predicted_not_produced": unconfirmed, "stress_runs": nstress, "stress_requests": nreq, "cancel_scenarios": cres, "model_checking": notes,
+           "sync_statements_rewritten": counts,
+           "rule": "every mutex, wait group and collection token operation of olareg, internal/store and internal/cache is rewritten (go build -overlay) to report to a hook; a workload of uploads, "
+                   "abandoned / cancelled / evicted / expired sessions, manifests, mounts, collections and Close runs on dir and mem with a session limit, a short grace period and the collection "
+                   "ticker; each goroutine segment that blocks while holding something becomes a thread program of spec/Locks.tla; TLC runs all pairs (thorough: triples) in every interleaving and "
+                   "reports blocked states; the same scripts then run from 10 goroutines at once, plainly and with delays at the edges of every predicted cycle: a request, collection or Close that "
+                   "does not return within 5 s is a hang (verdicts only from these real executions); a cancelled request waiting for a collection must return",
+           "samples": [{"name": p["name"][:80], "ops": ["%s %s" % (o["op"], o["class"]) for o in p["ops"][:10]]} for p in progs[:2]],
+           "known_findings_reported": sorted(klines), "exhaustive": False, "failures": [v[1] for v in violations][:10]}
+    vlib.write_evidence(prop, tier, seed, "model_checking", cov, ASSUME_COMMON[:2] + [
+        "a predicted cycle that the stress runs do not produce yields no verdict (it is listed in the evidence)",
+        "programs come from the recorded workload: code paths it does not exercise are not in the model",
+        "hang = no return within 5 s under the harness watchdog while nothing else makes progress"],
+        time.time() - t0, len(violations))
+    if violations:
+        for path, what in violations[:5]:
+            print("VIOLATION property=%s replay=%s" % (prop, path))
+            log("  " + what)
+        return 1
+    return 0
+
+
+CHECKS["C12"] = c12
